@@ -1,0 +1,46 @@
+//! Verification hooks: a [`Target`] whose transport is supplied by the verification harness.
+use std::{fmt::Debug, future::Future, marker::PhantomData};
+
+use anyhow::Context;
+use netconf::{transport::Transport, Session};
+
+use super::{Client, Closed, Target};
+
+/// A source of harness-supplied NETCONF transports.
+pub trait TransportFactory: Debug + Clone + Send + Sync + 'static {
+    /// Transport type produced by the factory.
+    type Transport: Transport + 'static;
+
+    /// Produce a transport for a new NETCONF session.
+    fn make(&self) -> impl Future<Output = anyhow::Result<Self::Transport>> + Send;
+}
+
+#[derive(Debug, Clone)]
+pub(crate) struct VerifTarget<F> {
+    factory: F,
+}
+
+impl<F> VerifTarget<F> {
+    pub(crate) const fn new(factory: F) -> Self {
+        Self { factory }
+    }
+}
+
+impl<F: TransportFactory> Target for VerifTarget<F> {
+    type Transport = F::Transport;
+
+    async fn connect(self) -> anyhow::Result<Client<Self, Closed>> {
+        let transport = self
+            .factory
+            .make()
+            .await
+            .context("failed to obtain a transport")?;
+        Session::verif_new(transport)
+            .await
+            .context("failed to establish NETCONF session")
+            .map(|session| Client {
+                session,
+                _db_state: PhantomData,
+            })
+    }
+}
